@@ -23,12 +23,12 @@ Fixpoint line_starts_from (r : bytes) (i : nat) : list nat :=
       if (b =? 13)%Z then
         match t with
         | b' :: t' =>
-            if (b' =? 10)%Z then (i + 2) :: line_starts_from t' (i + 2)     (* \r\n *)
-            else (i + 1) :: line_starts_from t (i + 1)                     (* lone \r *)
-        | [] => [i + 1]
+            if (b' =? 10)%Z then (S (S i)) :: line_starts_from t' (S (S i))     (* \r\n *)
+            else (S i) :: line_starts_from t (S i)                     (* lone \r *)
+        | [] => [S i]
         end
-      else if (b =? 10)%Z then (i + 1) :: line_starts_from t (i + 1)
-      else line_starts_from t (i + 1)
+      else if (b =? 10)%Z then (S i) :: line_starts_from t (S i)
+      else line_starts_from t (S i)
   end.
 
 Definition compute_line_starts (s : bytes) : list nat := 0 :: line_starts_from s 0.
